@@ -275,10 +275,33 @@ def r2(repo, chk):
         ok = [a.arg for a in pl.node.args.args][:2] == ["buf", "capacity"] and [a.arg for a in ps.node.args.args][:2] == ["buf", "capacity"]
         chk.ob("R2", f"pull_{k} / push_{k} take (buf, capacity)", ok, "", pl.loc(pl.node))
     pb, sb = Fn(repo, "tls:pull_block"), Fn(repo, "tls:push_block")
-    ok = any(norm(v) == "int.from_bytes(buf.pull_bytes(capacity), byteorder='big')" for st, t, v in pb.assigns(chain="length")) and any("length.to_bytes(capacity, byteorder='big')" in norm(c) for c in sb.calls(name="buf.push_bytes"))
-    chk.ob("R2", "block length prefixes are big-endian integers of `capacity` bytes on both sides", ok, "", pb.loc(pb.node))
-    ok = any(norm(v) == "end - start" for st, t, v in sb.assigns(chain="length")) and any(norm(v) == "buf.tell() + capacity" for st, t, v in sb.assigns(chain="start"))
-    chk.ob("R2", "push_block writes the number of bytes pushed inside it", ok, "", sb.loc(sb.node))
+    # written through whatever single-definition locals the author uses; positions are told apart by whether the
+    # buf.tell() they come from is evaluated before or after the `yield`
+    ok = any(pb.expand(v, 4) == "int.from_bytes(buf.pull_bytes(capacity), byteorder='big')" for st, t, v in pb.assigns(chain="length"))
+    ys = sb.nodes(ast.Yield)
+    pushes = sb.calls(name="buf.push_bytes")
+    e = sb._expand(pushes[0].args[0], 5, set()) if len(pushes) == 1 and pushes[0].args and len(ys) == 1 else None
+    be = isinstance(e, ast.Call) and isinstance(e.func, ast.Attribute) and e.func.attr == "to_bytes" and [norm(x) for x in e.args] == ["capacity"] and [(k.arg, norm(k.value)) for k in e.keywords] == [("byteorder", "'big'")]
+    chk.ob("R2", "block length prefixes are big-endian integers of `capacity` bytes on both sides", bool(ok and be), "", pb.loc(pb.node))
+    ok = False
+    if be and isinstance(e.func.value, ast.BinOp) and isinstance(e.func.value.op, ast.Sub):
+        L, R = e.func.value.left, e.func.value.right
+        yl = ys[0].lineno
+        ok = norm(L) == "buf.tell()" and L.lineno > yl and norm(R) == "buf.tell() + capacity" and R.lineno < yl
+    chk.ob("R2", "push_block writes the number of bytes pushed inside it", ok, "the prefix is (position after the body) - (position where the body started = position before the block + capacity)", sb.loc(sb.node))
+    if len(ys) == 1:
+        yl = ys[0].lineno
+        seeks = [(c, sb._expand(c.args[0], 5, set())) for c in sb.calls(name="buf.seek") if c.args]
+        pre = [x for c, x in seeks if c.lineno < yl]
+        post = [(c, x) for c, x in seeks if c.lineno > yl]
+        ok = [norm(x) for x in pre] == ["buf.tell() + capacity"]
+        chk.ob("R2", "push_block reserves exactly `capacity` bytes for the prefix before the body is written", ok, f"{[norm(x) for x in pre]}", sb.loc(sb.node))
+        ok = len(post) == 2 and len(pushes) == 1 and post[0][0].lineno < pushes[0].lineno < post[1][0].lineno
+        if ok:
+            first, last = post[0][1], post[1][1]
+            tells = [n for n in ast.walk(first) if isinstance(n, ast.Call) and norm(n) == "buf.tell()"]
+            ok = norm(first) in ("buf.tell()", "buf.tell() + capacity - capacity") and all(n.lineno < yl for n in tells) and norm(last) == "buf.tell()" and last.lineno > yl
+        chk.ob("R2", "push_block writes the prefix at the reserved position and then returns to the end of the body", ok, f"{[norm(x) for c, x in post]}", sb.loc(sb.node))
 
 
 def r3(repo, chk, ref):
